@@ -77,3 +77,22 @@ Fixpoint lookup (t : static_table) (o : opname) : option kind :=
   | [] => None
   | r :: t' => if opname_eqb (fst r) o then kind_of_writes (snd r) else lookup t' o
   end.
+
+(* the table harness/writeset.py derives from the unchanged tree (used by the non-vacuity example of Properties/C19.v) *)
+Definition reference_table : static_table :=
+  [(Op_mps_add, Some []); (Op_mps_add, Some []); (Op_mps_sub, Some []); (Op_mpo_add, Some []); (Op_mpo_add, Some []);
+   (Op_mpo_sub, Some []); (Op_mpo_matmul, Some []); (Op_mpo_matmul, Some []); (Op_apply_operator, Some []);
+   (Op_vdot, Some []); (Op_norm, Some []); (Op_operator_average, Some []); (Op_operator_inner_product, Some []);
+   (Op_operator_density_average, Some []); (Op_as_vector, Some []); (Op_as_matrix, Some []); (Op_from_vector, Some []);
+   (Op_split_mps_tensor, Some []); (Op_merge_mps_tensor_pair, Some []); (Op_merge_mpo_tensor_pair, Some []);
+   (Op_qr, Some []); (Op_split_matrix_svd, Some []); (Op_retained_bond_indices, Some []); (Op_from_opchains, Some []);
+   (Op_from_opgraph, Some []); (Op_mpo_identity, Some []); (Op_graph_as_matrix, Some []);
+   (Op_compute_right_operator_blocks, Some []); (Op_apply_local_hamiltonian, Some []);
+   (Op_apply_local_bond_contraction, Some []);
+   (Op_hamiltonian_constructor, Some []); (Op_hamiltonian_constructor, Some []); (Op_hamiltonian_constructor, Some []);
+   (Op_hamiltonian_constructor, Some []); (Op_hamiltonian_constructor, Some []); (Op_hamiltonian_constructor, Some []);
+   (Op_hamiltonian_constructor, Some []); (Op_hamiltonian_constructor, Some []);
+   (Op_mps_orthonormalize, Some [0]); (Op_mpo_orthonormalize, Some [0]); (Op_mps_compress, Some [0]);
+   (Op_tdvp_singlesite, Some [1]); (Op_tdvp_twosite, Some [1]); (Op_dmrg_singlesite, Some [1]); (Op_dmrg_twosite, Some [1]);
+   (Op_graph_add, Some [0]); (Op_graph_simplify, Some [0]); (Op_graph_flip, Some [0])].
+
